@@ -31,6 +31,7 @@ milliseconds without truncation, the stamp locals being identified by what
 they are read from; C11.4 force_set_identity takes the recorded identity
 unconditionally. Fourth round: C11.5 the stored listing is not modified while
 restore_placement walks it.
+Sweep: C11.4 every way an iteration of the restore walk can end is: restore result true, record deleted, or the not-found handler of the record read; C11.5 the walk is never cut short.
 Does NOT decide fidelity for all reachable stored states.
 """
 
@@ -698,4 +699,19 @@ REFACTORS = [
 """, """            if presence_time is not None and \\
                     presence_time <= placement_time:
 """)]),
+]
+
+# sweep-driven clauses (DESIGN 9.7)
+MUTANTS += [
+    ('stale-record-kept', [(_L, """                # Stale app - safely ignored.
+                self.backend.delete(appnode)
+""", """                # Stale app - safely ignored.
+""")], 'C11.4'),
+    ('schedule-once-record-kept', [(_L, """                if app.schedule_once:
+                    restored = False
+                else:
+""", """                if app.schedule_once:
+                    continue
+                else:
+""")], 'C11.4'),
 ]
